@@ -160,6 +160,14 @@ func (w *World) resolve(ref *SecretRef) string {
 				}
 			}
 		}
+	case "forged_rm":
+		pid := w.pidOf(ref.A, nil)
+		raw := append([]byte(pid+";"), make([]byte, 32)...)
+		fr := NewRng(uint64(ref.Idx) + 77)
+		for i := len(pid) + 1; i < len(raw); i++ {
+			raw[i] = byte(fr.Intn(256))
+		}
+		v = base64.URLEncoding.EncodeToString(raw)
 	case "rmtable":
 		if len(w.DB.rm) > 0 {
 			t := w.DB.rm[len(w.DB.rm)-1]
